@@ -61,10 +61,10 @@ Proof.
            (walk_ok_utf8 fold_code_point cs Hw tries p Hp) E).
 Qed.
 
-(* ... and, for a pattern without \q{...} string sets, the reported match and every reported capture start
+(* ... and, for every pattern the parser produces, the reported match and every reported capture start
    and end at character boundaries (what slicing the haystack with the reported ranges needs) *)
 Theorem c06_match_on_char_boundaries_utf8 : forall unicode utf16 h cs fuel n ngroups tries p p0 e gs,
-  utf8_chars (length h) h = Some cs -> simple n = true -> Utf8Valid.bnd cs p ->
+  utf8_chars (length h) h = Some cs -> parsed n = true -> Utf8Valid.bnd cs p ->
   ir_search (utf8_indexer fold_code_point) unicode utf16 h fuel n ngroups tries p = Some (Some (p0, e, gs)) ->
   Utf8Valid.bnd cs p0 /\ Utf8Valid.bnd cs e /\
   Forall (fun gd => (forall q, gd_start gd = Some q -> Utf8Valid.bnd cs q) /\ (forall q, gd_end gd = Some q -> Utf8Valid.bnd cs q)) gs.
@@ -73,7 +73,8 @@ Proof.
   destruct (utf8_chars_ok _ _ _ Hch) as [Hw Hcat]. subst h.
   pose proof (text_ok_utf8 fold_code_point cs Hw unicode) as Ht. destruct Ht as (Hk0 & Hk1 & Hk5 & Hk4 & Hcp & Hb1 & Hb2 & Hst).
   eapply (search_boundaries (utf8_indexer fold_code_point) unicode utf16 (concat cs) (Utf8Valid.bnd cs) n Hk5); [|exact Hp|exact E].
-  exact (al_simple (utf8_indexer fold_code_point) unicode utf16 (concat cs) (Utf8Valid.bnd cs) Hk1 Hk4 Hb1 n Hs).
+  exact (al_parsed (utf8_indexer fold_code_point) unicode utf16 (concat cs) (Utf8Valid.bnd cs) (text_ok_utf8 fold_code_point cs Hw unicode)
+           (text_enc_utf8 fold_code_point cs Hw unicode) n Hs).
 Qed.
 
 (* Non-vacuity: a lookbehind over a two-byte character: (?<=é)a on "éa" matches 2..3. *)
